@@ -50,6 +50,7 @@ typedef struct qop {
 	int depth;           // suspend: nesting depth; pause: microseconds
 	int resume_after;    // suspend: number of following ops of the same list before the resumes
 	int onqueue;         // suspend issued from an item running on that queue
+	int arm_rel, arm_code; // workload-placed stall of the submitting thread inside this submission
 } qop;
 
 typedef struct qitem {
